@@ -33,7 +33,7 @@ PLANS["C08"] = {
     "thorough": [J("writers", "p=2,f=2,s=1", 900), J("writers2", "p=3,f=1,s=1,t=1", 600), J("race-client", "thorough", 300, test="TestE3", shards=1, race=True)],
 }
 PLANS["C10"] = {
-    "quick": [J("wedge", "p=1,f=1", 45), J("wedge", "f=2", 45)],
+    "quick": [J("wedge", "p=1,f=1", 45), J("wedge", "f=2", 45), J("wedgeburst", "p=1,f=1", 45)],
     "thorough": [J("wedge", "p=2,f=3,s=2", 900)],
 }
 PLANS["C11"] = {
